@@ -3,6 +3,7 @@ package queue
 import (
 	"fmt"
 	"strings"
+	"sync"
 	"time"
 
 	mod "github.com/craterdog/go-collection-framework/v4"
@@ -48,6 +49,7 @@ func budget(tier string) time.Duration {
 }
 
 func init() {
+	engine.RegisterRacePrograms("C04", racePrograms)
 	engine.Register(&engine.Check{
 		ID:        "C04",
 		Technique: "stateless model checking of the real queue.go under a cooperative scheduler: depth-first enumeration of all schedules (preemption bounding, then unbounded where it completes) + vector-clock race detection on every execution + brute-force FIFO linearizability of every recorded history",
@@ -61,6 +63,7 @@ func init() {
 				p := p
 				us = append(us, engine.Unit{Name: p.Name, Run: func(r *engine.Rec) { exploreProg(r, p, "C04") }})
 			}
+			us = append(us, engine.RacePassUnit("C04"))
 			return us
 		},
 	})
@@ -157,4 +160,83 @@ func constructorLadder(r *engine.Rec) {
 	}
 	r.Distinct += 390
 	r.Sample(map[string]any{"constructor": "MakeFromArray", "N": "0..64"})
+}
+
+// racePrograms: the client programs whose goroutines all terminate and that do
+// not call RemoveAll (whose race is a recorded finding), run free for the
+// auxiliary pass under Go's race detector. No history is recorded here: the
+// bodies call the queue directly.
+func racePrograms() []engine.RaceProgram {
+	var ps []engine.RaceProgram
+	for _, p := range Programs("quick") {
+		p := p
+		// families in which every goroutine terminates on a correct queue
+		// (a closer that is free to run concurrently with producers is left to the explored executions, which
+		// report the send/close race that Go's detector reports too - a recorded finding - on every run)
+		skip := !(p.Family == "pc" || p.Family == "pipeline" || p.Family == "observer" || p.Family == "capacity0")
+		for _, s := range p.Scripts {
+			for _, op := range s.Ops {
+				if op.Kind == OpRemoveAll || op.Kind == OpSignal || op.Kind == OpAwait {
+					skip = true
+				}
+			}
+		}
+		if skip {
+			continue
+		}
+		ps = append(ps, engine.RaceProgram{Name: p.Name, Run: func() {
+			q := col.Queue[int](common.N()).MakeWithCapacity(uint(p.Capacity))
+			var prod, all, start sync.WaitGroup
+			for _, s := range p.Scripts {
+				if s.Producer {
+					prod.Add(1)
+				}
+			}
+			start.Add(1)
+			for _, s := range p.Scripts {
+				s := s
+				all.Add(1)
+				go func() {
+					defer all.Done()
+					if s.Producer {
+						defer prod.Done()
+					}
+					defer func() { recover() }()
+					start.Wait()
+					for _, op := range s.Ops {
+						switch op.Kind {
+						case OpAdd:
+							q.AddValue(op.Arg)
+						case OpRem:
+							q.RemoveHead()
+						case OpDrain:
+							for {
+								if _, ok := q.RemoveHead(); !ok {
+									break
+								}
+							}
+						case OpClose:
+							q.CloseQueue()
+						case OpWaitProd:
+							prod.Wait()
+						case OpSize:
+							q.GetSize()
+						case OpEmpty:
+							q.IsEmpty()
+						case OpArray:
+							q.AsArray()
+						case OpIter:
+							it := q.GetIterator()
+							for it.HasNext() {
+								it.GetNext()
+							}
+						}
+					}
+				}()
+			}
+			start.Done()
+			all.Wait()
+		}})
+	}
+	return ps
 }
